@@ -839,8 +839,8 @@ impl<'a, 'b> ParserState<'a, 'b> {
 
                     mixed_mode = false;
                     data = self.skip_ws_t(data).ok_or_else(Error::eof)?;
-                    match data[0] {
-                        b'=' | b'>' | b'<' => {
+                    match data {
+                        [b'=' | b'>' | b'<', ..] | [b'!' | b'?', b'=', ..] => {
                             let ind = self.token_tape.len() - 2;
                             self.token_tape[ind] = TextToken::Object {
                                 end: parent_ind,
